@@ -115,6 +115,10 @@ int get_opcode_offset(struct instr *instrc) {
     return 1;
   if (IN_RANGE(index, reg16, ext64) || IN_RANGE(index2, reg16, ext64))
     return 1;
+  // a sized memory operand without any register ([disp])
+  if (instrc->mem_disp && (instrc->keyword.is_word || instrc->keyword.is_dword ||
+                           instrc->keyword.is_qword))
+    return 1;
   return NONE;
 }
 
